@@ -13,7 +13,7 @@ import re
 
 from common import Rule, V, finish
 from mirlib import ENTRY_POINTS, short_path, op_place
-from srclib import walk, walk_block, lit_str, expr_text, pat_text, pat_bindings
+from srclib import walk, walk_block, lit_str, expr_text, pat_text, pat_bindings, stmt_exprs
 
 PROP = "C07"
 GEN_MODELS = "tauri_typegen::generators::base::BaseBindingsGenerator::generate_models"
@@ -25,6 +25,74 @@ STRUCT_FIELDS = {
     "ParameterInfo.type_structure": "parameters", "CommandInfo.return_type_structure": "returns", "ChannelInfo.message_type_structure": "channel messages",
     "FieldInfo.type_structure": "fields", "EventInfo.payload_type_structure": "event payloads",
 }
+
+
+def check_serde_filter(S, P, r5):
+    """which items count as serde types; shared by C07-D5 and C02-D4"""
+    fn = S.fn("StructParser", "should_include")
+    if fn is None:
+        r5.bad(V(r5.id, "<anchor>", "missing:should_include", "anchor not found"))
+    else:
+        lits = []
+        ops = []
+        for e in walk_block(fn.body):
+            if e.get("k") == "binary" and e["op"] in ("||", "&&"):
+                ops.append(e["op"])
+            if e.get("k") == "binary" and e["op"] == "==":
+                for side in (e["l"], e["r"]):
+                    s = lit_str(side)
+                    if s:
+                        lits.append(s)
+            if e.get("k") == "mcall" and e["method"] in ("is_ident", "contains") and e["args"] and lit_str(e["args"][0]):
+                lits.append(lit_str(e["args"][0]))
+        if set(lits) >= {"derive", "Serialize", "Deserialize"} and "&&" not in ops and set(lits) <= {"derive", "Serialize", "Deserialize"}:
+            r5.ok("should_include: derive ∋ Serialize ∨ Deserialize")
+        else:
+            r5.bad(V(r5.id, "StructParser::should_include", "predicate:%s:%s" % (sorted(set(lits)), sorted(set(ops))), "the serde filter tests %s combined with %s" % (sorted(set(lits)), sorted(set(ops)))))
+    if fn is not None:
+        check_flag_accumulation(fn, r5)
+    for nm in ("index_type_definitions", "extract_type_from_ast"):
+        fs = P.find("CommandAnalyzer::" + nm)
+        for f in fs:
+            used = {short_path(c.best) for c in f.calls}
+            if {"StructParser::should_include_struct", "StructParser::should_include_enum"} <= used:
+                r5.ok("%s consults should_include_struct and should_include_enum" % nm)
+            else:
+                r5.bad(V(r5.id, f.id, "filter-not-consulted", "%s does not consult the serde filter for structs and enums" % nm))
+
+
+def check_flag_accumulation(fn, rule):
+    """a flag that records "one of the listed items matched" is only ever set to `true` (or initialised to false): an unguarded
+    `flag = <test on the current item>` lets a later non-matching item reset it, so the verdict depends on the order of the list"""
+    from srclib import children
+    flags = set()
+    for st in fn.body:
+        pass
+    stack = [x for st in fn.body for x in stmt_exprs(st)]
+    # collect `let mut flag = false` declarations anywhere in the function
+    def lets(stmts):
+        for st in stmts or []:
+            if isinstance(st, dict) and st.get("k") == "let" and st.get("init") is not None and st["init"].get("k") == "lit" and st["init"]["lit"]["t"] == "bool":
+                for b in pat_bindings(st["pat"]):
+                    flags.add(b)
+            for e in stmt_exprs(st) if isinstance(st, dict) else []:
+                for x in walk(e):
+                    for key in ("then", "stmts", "body"):
+                        v = x.get(key)
+                        if isinstance(v, list):
+                            lets(v)
+                    if x.get("k") == "closure" and isinstance(x.get("body"), dict) and x["body"].get("k") == "block":
+                        lets(x["body"]["stmts"])
+    lets(fn.body)
+    for e in walk_block(fn.body):
+        if e.get("k") == "assign" and e["l"].get("k") == "path" and len(e["l"]["segs"]) == 1 and e["l"]["segs"][0] in flags:
+            r = e["r"]
+            if r.get("k") == "lit" and r["lit"]["t"] == "bool" and r["lit"]["v"] is True:
+                rule.ok("%s = true (monotone)" % e["l"]["segs"][0])
+            else:
+                rule.bad(V(rule.id, fn.qname, "flag-reset:%s" % e["l"]["segs"][0],
+                           "`%s = %s` can reset the match flag on a later list item: whether the type counts as a serde type then depends on the order of its derive list"
+                           % (e["l"]["segs"][0], expr_text(r)[:60]), fn.file, e.get("ln")))
 
 
 def check_closure_before_insert(P, r3):
@@ -58,6 +126,16 @@ def check_closure_before_insert(P, r3):
             if not (o[0] == "call" and o[1].name in ("into_iter", "iter", "drain", "keys", "into_keys") and o[1].args):
                 return None
             return ident(f.origin(o[1].args[0]))
+        # the closure runs over the full discovered set (the generator's parameter), like collect_used_types does — not over the set collected so far
+        cu0 = [c for c in f.calls if short_path(c.best) == "TypeCollector::collect_used_types"]
+        universe = ident(f.origin(cu0[0].args[2])) if cu0 and len(cu0[0].args) > 2 else None
+        for d in dn:
+            u = ident(f.origin(d.args[2])) if len(d.args) > 2 else None
+            if universe is not None and u == universe and u[0] == "arg":
+                r3.ok("%s: discover_nested_dependencies searches the discovered set" % short_path(gid))
+            else:
+                r3.bad(V(r3.id, gid, "closure-universe", "discover_nested_dependencies looks field types up in %s, not in the discovered set %s that collect_used_types uses: payload fields defined outside that set stay undeclared"
+                         % (u, universe), d.file, d.line))
         for c in ins:
             doms = [d for d in dn if f.dominates(d.bb, c.bb)]
             if not doms:
@@ -315,34 +393,7 @@ def check(ctx):
               "should_include: attribute is a `derive` list containing a path whose last segment is Serialize or Deserialize; both "
               "index_type_definitions and extract_type_from_ast consult it for structs and enums",
               "`&&` instead of `||` drops Serialize-only types; indexing without the filter emits non-serde types")
-    fn = S.fn("StructParser", "should_include")
-    if fn is None:
-        r5.bad(V(r5.id, "<anchor>", "missing:should_include", "anchor not found"))
-    else:
-        lits = []
-        ops = []
-        for e in walk_block(fn.body):
-            if e.get("k") == "binary" and e["op"] in ("||", "&&"):
-                ops.append(e["op"])
-            if e.get("k") == "binary" and e["op"] == "==":
-                for side in (e["l"], e["r"]):
-                    s = lit_str(side)
-                    if s:
-                        lits.append(s)
-            if e.get("k") == "mcall" and e["method"] in ("is_ident", "contains") and e["args"] and lit_str(e["args"][0]):
-                lits.append(lit_str(e["args"][0]))
-        if set(lits) >= {"derive", "Serialize", "Deserialize"} and "&&" not in ops and set(lits) <= {"derive", "Serialize", "Deserialize"}:
-            r5.ok("should_include: derive ∋ Serialize ∨ Deserialize")
-        else:
-            r5.bad(V(r5.id, "StructParser::should_include", "predicate:%s:%s" % (sorted(set(lits)), sorted(set(ops))), "the serde filter tests %s combined with %s" % (sorted(set(lits)), sorted(set(ops)))))
-    for nm in ("index_type_definitions", "extract_type_from_ast"):
-        fs = P.find("CommandAnalyzer::" + nm)
-        for f in fs:
-            used = {short_path(c.best) for c in f.calls}
-            if {"StructParser::should_include_struct", "StructParser::should_include_enum"} <= used:
-                r5.ok("%s consults should_include_struct and should_include_enum" % nm)
-            else:
-                r5.bad(V(r5.id, f.id, "filter-not-consulted", "%s does not consult the serde filter for structs and enums" % nm))
+    check_serde_filter(S, P, r5)
     r5.require_floor(3, "filter facts")
     rules.append(r5)
 
